@@ -137,6 +137,8 @@ def component_node(index: RepoIndex, func: Func) -> Tuple[ast.FunctionDef, list]
     ex = inline_methods_by_name(index, node, exclude=VOCABULARY)
     if ast.dump(ex) != ast.dump(node):
         node = ex
+    from .normalise import eliminate_none_sentinel
+    node = eliminate_none_sentinel(node)
     _CACHE[key] = (node, None, inlined)
     return node, inlined
 
